@@ -187,7 +187,7 @@ class CopyNative(Contract):
     symbolic = False
     has_native = True
     props = ("C12",)
-    bounded_scope = "Points / Curve / Grid2D with 3 data (created in an order different from the property-group member order), metadata with a nested dict; copied to the same parent, another group, another workspace (fresh and with a pre-existing child uid); compared attribute by attribute live and after re-open; source snapshot and per-node source-file digest unchanged; edits of the copy do not show in the source"
+    bounded_scope = "Points / Curve / Grid2D with 7 data (incl. short names that are fragments of the reserved survey channel names; created in an order different from the property-group member order), metadata with a nested dict; copied to the same parent, another group, another workspace (fresh and with a pre-existing child uid); compared attribute by attribute live and after re-open; source snapshot and per-node source-file digest unchanged; edits of the copy do not show in the source"
 
     def native_cases(self, tier, rng):
         for kind in ("points", "curve", "grid2d"):
@@ -216,6 +216,9 @@ class CopyNative(Contract):
                 a = obj.add_data({"dip": {"values": np.arange(n) + 0.5, "association": assoc}})
                 b = obj.add_data({"azimuth": {"values": np.arange(n) + 10.5, "association": assoc}})
                 c = obj.add_data({"other": {"values": np.arange(n) + 20.5, "association": assoc}})
+                # short names that are fragments of the reserved survey channel names ("A-B Cell ID", "Transmitter ID") are ordinary data
+                for extra, name in enumerate(("ID", "Cell", "B", "Transmitter")):
+                    obj.add_data({name: {"values": np.arange(n) + 30.5 + extra, "association": assoc}})
                 obj.add_data_to_group([b, a], "orient")  # member order differs from creation order
                 obj.metadata = {"info": {"nested": [1, 2, 3]}, "k": "v"}
                 grp = ContainerGroup.create(ws, name="g")
